@@ -251,7 +251,7 @@ pub fn impl_step(p: &mut TlsRecordsParser, op: &Op, alpha: &[Rec], region: Regio
             }
         }
     };
-    let hidden = if p.verif_defrag_buffer().len() <= 4096 { vcommon::report::fnv(0, format!("{:?}", p).as_bytes()) } else { 0 };
+    let hidden = if crate::defrag_explore::FINE_KEY.load(std::sync::atomic::Ordering::Relaxed) && p.verif_defrag_buffer().len() <= 4096 { vcommon::report::fnv(0, format!("{:?}", p).as_bytes()) } else { 0 };
     Obs {
         got,
         in_progress: p.defrag_in_progress(),
